@@ -109,7 +109,12 @@ func (e *FieldExpression) Evaluate(ctx *Context, input system.Collection) (syste
 		}
 		// unwrap if a ContainedResource
 		if contained, ok := message.(*bcrpb.ContainedResource); ok {
-			message = containedresource.Unwrap(contained)
+			unwrapped := containedresource.Unwrap(contained)
+			if unwrapped == nil {
+				// an empty ContainedResource holds no resource to navigate into
+				continue
+			}
+			message = unwrapped
 		}
 
 		// Get desired field
@@ -190,7 +195,9 @@ func (e *FieldExpression) Evaluate(ctx *Context, input system.Collection) (syste
 				return nil, err
 			}
 			if contained, ok := obj.(*bcrpb.ContainedResource); ok {
-				obj = containedresource.Unwrap(contained)
+				if unwrapped := containedresource.Unwrap(contained); unwrapped != nil {
+					obj = unwrapped
+				}
 			}
 			return e.unwrapOneof(obj), nil
 		}
